@@ -305,6 +305,19 @@ EMIT = {"json": (to_json, "json"), "json5": (to_json5, "json5"), "yaml": (to_yam
 
 
 def cargo_toml(name, cfg):
+    if name.startswith("edge"):
+        # non-ASCII text before the section (authors, a comment)
+        return f'''[package]
+name = "{name}"
+version = "0.1.0"
+edition = "2021"
+authors = ["日本 太郎 <taro@example.jp>", "Zoë Müller"]
+# configuration de l'internationalisation — 国際化の設定
+
+[dependencies]
+
+[package.metadata.leptos-i18n]
+{cfg}'''
     return f'''[package]
 name = "{name}"
 version = "0.1.0"
@@ -404,6 +417,10 @@ EDGE = {
         "dash_key2": "with an underscore",
         "a": {"b-c": {"d_e": "deep {{ x }}", "d-f": "$t(a.b-c.d_e, {\"x\": \"y\"})"}},
         "only_numbers": {"n": 1, "b": True, "f": 2.5},
+        # line terminators of every kind inside a text
+        "crlf": "Dear customer,\r\nyour order has shipped.\r\n",
+        "lone_cr": "a\rb\n\rc\r",
+        "seps": "line\u2028sep para\u2029sep \u2029\u2028 end\u2029",
         # long texts of equal length that only differ in the middle
         "terms_30": "You may return any item in its original packaging for a full refund within 30 days of the delivery date, provided that the receipt is enclosed with the parcel.",
         "terms_14": "You may return any item in its original packaging for a full refund within 14 days of the delivery date, provided that the receipt is enclosed with the parcel.",
